@@ -94,6 +94,7 @@ type Obs struct {
 	dqHanded    map[*evState]int
 	spawning    map[int]*evState
 	backing     map[*pipeline.Event]*evState
+	content     map[string][]string // per (source,stream): field m of delivered regular events, in order
 	log         []string
 	p           *pipeline.Pipeline
 }
@@ -311,6 +312,16 @@ func (p *output) Out(e *pipeline.Event) {
 			}
 		}
 	} else {
+		if st := o.byPtr[e]; st != nil {
+			// content as handed to the output (C15): the join field of regular events per source and stream, in the order
+			// the processor passes them on (concurrent batch workers may complete their sends in any order)
+			m := "<none>"
+			if n := e.Root.Dig("m"); n != nil {
+				m = strings.Clone(n.AsString())
+			}
+			k := key(st.src, st.stream)
+			o.content[k] = append(o.content[k], m)
+		}
 		o.sentPtr[e] = true
 		if st := o.byPtr[e]; st == nil && e.VerifKind() != childKind() {
 			o.fail("out-unowned", nil, "event at offset %d handed to the output but it is not out of the pool", e.Offset)
@@ -440,7 +451,7 @@ func actionInfo(o *Obs, kind string) []*pipeline.ActionPluginStaticInfo {
 
 func Body(sc *Scn) {
 	o := &Obs{sc: sc, byPtr: map[*pipeline.Event]*evState{}, reading: map[int]*evState{}, ackedPtr: map[*pipeline.Event]bool{},
-		sentPtr: map[*pipeline.Event]bool{}, commitSeq: map[string][]int64{}, dqHanded: map[*evState]int{}, spawning: map[int]*evState{}, backing: map[*pipeline.Event]*evState{}}
+		sentPtr: map[*pipeline.Event]bool{}, commitSeq: map[string][]int64{}, dqHanded: map[*evState]int{}, spawning: map[int]*evState{}, backing: map[*pipeline.Event]*evState{}, content: map[string][]string{}}
 	O = o
 	for s, list := range sc.Sources {
 		var l []*evState
@@ -562,6 +573,7 @@ var ClauseProps = map[string]string{
 	"wedged": "C04", "deadlock": "C04", "livelock": "C04",
 	"capacity-exceeded": "C05", "double-handout": "C05", "double-return": "C05", "leak": "C05", "not-zero-at-idle": "C05", "out-unowned": "C05",
 	"dq-twice": "C09", "dq-missing": "C09", "giveup-report": "C09",
+	"reassembly": "C15",
 }
 
 func Check(sc *Scn, x *vsched.Exec) []vexplore.Finding {
@@ -599,6 +611,20 @@ func Check(sc *Scn, x *vsched.Exec) []vexplore.Finding {
 				}
 				if st.backs != 1 {
 					fs = append(fs, vexplore.Finding{Clause: "unaccounted", Features: map[string]string{}, Detail: fmt.Sprintf("%v: %d endings (returns to the pool) at idle", st, st.backs)})
+				}
+			}
+		}
+		if exp, ok := expectedJoin(sc); ok {
+			for k, want := range exp {
+				got := o.content[k]
+				if !refines(got, want) {
+					fs = append(fs, vexplore.Finding{Clause: "reassembly", Features: map[string]string{},
+						Detail: fmt.Sprintf("stream %s: delivered join field sequence %q, the list-based reference join gives %q (a run may only be split where a stream time-out flushed it)", k, got, want)})
+				}
+			}
+			for k := range o.content {
+				if _, ok := exp[k]; !ok && len(o.content[k]) > 0 {
+					fs = append(fs, vexplore.Finding{Clause: "reassembly", Features: map[string]string{}, Detail: fmt.Sprintf("events delivered for stream %s which has none in the reference: %q", k, o.content[k])})
 				}
 			}
 		}
@@ -652,3 +678,81 @@ func b2i(b bool) int {
 }
 
 func vplugQuiet() { vplug.Quiet() }
+
+// expectedJoin is the boring reference for chains [join] and [discard, join] with every send succeeding:
+// per (source, stream) the events that reach the join, each maximal run (a start line ^S followed by ^C lines)
+// replaced by one event whose field is the concatenation, other events unchanged, in order.
+func expectedJoin(sc *Scn) (map[string][]string, bool) {
+	chain := strings.Join(sc.Actions, ",")
+	if chain != "join" && chain != "discard,join" {
+		return nil, false
+	}
+	if strings.Contains(sc.Sends, "f") {
+		return nil, false
+	}
+	out := map[string][]string{}
+	for s, list := range sc.Sources {
+		cur := map[string]*string{} // per stream: run being joined
+		flush := func(k string) {
+			if cur[k] != nil {
+				out[k] = append(out[k], *cur[k])
+				cur[k] = nil
+			}
+		}
+		for _, e := range list {
+			if e.Bad || e.Refuse {
+				continue
+			}
+			k := key(s+1, streamOf(e))
+			if chain == "discard,join" && strings.Contains(e.JSON, `"d":"1"`) {
+				continue // dropped before the join sees it
+			}
+			m, has := fieldM(e.JSON)
+			switch {
+			case has && strings.HasPrefix(m, "S"):
+				flush(k)
+				v := m
+				cur[k] = &v
+			case has && strings.HasPrefix(m, "C") && cur[k] != nil:
+				*cur[k] += m
+			default:
+				flush(k)
+				if has {
+					out[k] = append(out[k], m)
+				} else {
+					out[k] = append(out[k], "<none>")
+				}
+			}
+		}
+		for k := range cur {
+			flush(k)
+		}
+	}
+	return out, true
+}
+
+func fieldM(js string) (string, bool) {
+	i := strings.Index(js, `"m":"`)
+	if i < 0 {
+		return "", false
+	}
+	rest := js[i+5:]
+	return rest[:strings.IndexByte(rest, '"')], true
+}
+
+// refines reports whether got equals want up to splitting a joined run into consecutive pieces: a stream time-out may
+// flush a run early, the rest of the run then continues as separate events (the property allows a flush by time-out).
+func refines(got, want []string) bool {
+	i := 0
+	for _, w := range want {
+		acc := ""
+		for acc != w {
+			if i >= len(got) || !strings.HasPrefix(w, acc+got[i]) || got[i] == "" {
+				return false
+			}
+			acc += got[i]
+			i++
+		}
+	}
+	return i == len(got)
+}
